@@ -62,11 +62,12 @@ class LegResult:
 
 
 def run_pipe_leg(ctx: Any, svc: Service, calls: list[Call], kind: str, *, buggify: bool, label: str,
-                 client_services: dict[int, Service] | None = None, capture_access: bool = False) -> LegResult:
+                 client_services: dict[int, Service] | None = None, capture_access: bool = False, tap: bool = False,
+                 server_kwargs: dict[str, Any] | None = None) -> LegResult:
     """One simulated pipe/unix/tcp/subproc connection; calls run sequentially on it."""
     sched = Scheduler(ctx.ch, ctx.log, wall_limit=60.0)
-    server = RpcServer(svc.protocol, svc.impl_cls(), server_id="srv")
-    res = LegResult(name=f"{kind}{'+chunk' if buggify else ''}", traces=[])
+    server = RpcServer(svc.protocol, svc.impl_cls(), server_id="srv", **(server_kwargs or {}))
+    res = LegResult(name=f"{kind}{'+chunk' if buggify else ''}", traces=[], extra={})
     ob = Observer()
     state: dict[str, Any] = {"cur": None}
     cap = access_capture() if capture_access else None
@@ -75,14 +76,20 @@ def run_pipe_leg(ctx: Any, svc: Service, calls: list[Call], kind: str, *, buggif
         def root() -> None:
             conn = s1.make_conn(sched, ctx.ch, kind, label, buggify=buggify)
             state["conn"] = conn
+            if tap:
+                conn.s2c.tap = bytearray()
+                conn.c2s.tap = bytearray()
             s1.serve_conn(sched, server, conn)
             proxies: dict[int, Any] = {}
+            marks: list[int] = []
+            res.extra["s2c_marks"] = marks
             for i, c in enumerate(calls):
                 cs = (client_services or {}).get(i, svc)
                 p = proxies.get(id(cs))
                 if p is None:
                     p = proxies[id(cs)] = _RpcProxy(cs.protocol, conn.client, ob.on_log)
                 state["cur"] = i
+                marks.append(len(conn.s2c.tap) if conn.s2c.tap is not None else 0)
                 try:
                     tr = drive(p, cs, c, ob)
                 except Exception as exc:  # noqa: BLE001
@@ -107,6 +114,9 @@ def run_pipe_leg(ctx: Any, svc: Service, calls: list[Call], kind: str, *, buggif
         res.server_exc = f"{type(conn.server_exc).__name__}: {conn.server_exc}"
     if handler is not None:
         res.access = handler.records
+    if conn is not None and conn.s2c.tap is not None:
+        res.extra["s2c"] = bytes(conn.s2c.tap)
+        res.extra["c2s"] = bytes(conn.c2s.tap or b"")
     return res
 
 
